@@ -4,6 +4,7 @@ import (
 	"fmt"
 	"sort"
 	"strings"
+	"verif/mc/univ"
 
 	"verif/mc/model"
 	"verif/mc/report"
@@ -33,6 +34,7 @@ func C07(c *Ctx, r *report.Run) error {
 			specs = append(specs, s)
 		}
 	}
+	specs = append(specs, univ.PairSpecs(c.Thorough)...)
 	r.Programs = len(specs)
 	w, err := ws.Build(c.Bins, specs, ws.Options{Variant: ws.HC, Tag: "rtHC08", Harness: true, TS: true})
 	if err != nil {
